@@ -3,6 +3,6 @@ import FileD.Drv.C01
 namespace FileD.DrvC02
 
 def handle (cmd : String) (args impl : List String) : Option (String × String) :=
-  if cmd = "c02.run" then FileD.DrvC01.handle cmd args impl else none
+  if cmd = "c02.run" ∨ cmd = "c02.proc" then FileD.DrvC01.handle cmd args impl else none
 
 end FileD.DrvC02
